@@ -16,7 +16,7 @@ if [ -n "$TRY_IN_REPO" ]; then
 else
   tree=/root/scratch/seedtry_$$
   trap 'rm -rf $tree' EXIT
-  rsync -a --exclude .git /repo/ $tree/
+  rsync -a --exclude .git ${SEED_BASE:-/repo}/ $tree/
   (cd $tree && patch -p1 -s --no-backup-if-mismatch < "$d/patch.diff") || { echo "$d patch does not apply"; exit 2; }
   export VERIF_REPO=$tree
 fi
